@@ -135,6 +135,49 @@ pub fn run(ctx: &mut Ctx) {
             }
         }
     }
+    // magnitude ladder: all pairs around every integer-width boundary (integer fast paths whose
+    // partial results leave the exact range, cancellation back into it)
+    {
+        let lad = al::magnitude_ladder();
+        for x in &lad {
+            if !ctx.mine() {
+                continue;
+            }
+            for y in &lad {
+                ctx.edge();
+                for k in OPS {
+                    ctx.check(&format!("{}:ladder:2", k), &op(k, vec![x.clone(), y.clone()]), &null);
+                }
+            }
+            // three operands: out of the exact range and back
+            for y in lad.iter().filter(|v| v.is_i64() || v.is_u64()) {
+                for z in [json!(1), json!(-1), x.clone()] {
+                    ctx.check("+:ladder:3", &json!({"+": [x, y, z]}), &null);
+                    ctx.check("+:ladder:3:V", &json!({"+": [{"var": 0}, {"var": 1}, {"var": 2}]}), &json!([y, z, x]));
+                }
+            }
+        }
+    }
+    // near-integers: two-decimal fractions against scale factors; the exact result is often one ulp
+    // away from a whole number and must not be "tidied" into it
+    {
+        let scales = [json!(3), json!(10), json!(100), json!(1000), json!(0.1), json!(0.01), json!(1e15), json!(7)];
+        for d in 1..=500u32 {
+            if !ctx.mine() {
+                continue;
+            }
+            let x = json!(d as f64 / 100.0);
+            for sc in &scales {
+                ctx.edge();
+                for k in ["*", "/", "+", "-", "%"] {
+                    ctx.check(&format!("{}:near-integer", k), &op(k, vec![x.clone(), sc.clone()]), &null);
+                }
+            }
+            ctx.check("+:near-integer:3", &json!({"+": [x, 0.2, 0.1]}), &null);
+            ctx.check("-:near-integer:big", &json!({"-": [4503599627370496u64, x]}), &null);
+            ctx.check("+:near-integer:big", &json!({"+": [2251799813685248u64, x]}), &null);
+        }
+    }
     // length 2
     for x in &a {
         for y in &a {
@@ -223,4 +266,5 @@ pub fn run(ctx: &mut Ctx) {
             }
         }
     }
+    crate::spaces::render_probes(ctx, &OPS);
 }
